@@ -383,6 +383,16 @@ def wait_summary(ctx, rule="R04.3"):
         elif running and not running[0][3]:
             ctx.require(not assigns and not waits, rule, "wait-summary:not-running", "when not running, wait() changes nothing", f.loc(f.line))
     ctx.floor(rule, "CommandState::wait Running path", n_true, 1)
+    # no path may write the state unless the child's wait() succeeded on that path
+    for p in ps:
+        assigns = [(i, e) for i, e in enumerate(p.ev) if e[0] == "assign" and e[1].lstrip("^*") == "self"]
+        for i, e in assigns:
+            ok_wait = any(j < i and x[0] == "arm" and "TokioChildWrapper::wait(" in x[1] and (x[2][0].startswith("Continue") or x[2][0].startswith("Ok"))
+                          for j, x in enumerate(p.ev))
+            ctx.require(ok_wait and e[2].startswith("Finished{"), rule, "wait-summary:write-needs-reaped-child",
+                        "CommandState::wait writes the state only after the child's wait() succeeded", f.loc(f.line), detail=repr(p),
+                        fail="CommandState::wait overwrites the state (%s) on a path where the child was not successfully waited on: the "
+                             "running child's handle is dropped unreaped and the next start spawns a second process" % e[2][:40])
     # Ok(true) / Ok(false) placement by THIR shape: the `if let Running` then-branch ends in Ok(true), else Ok(false)
     ifs = [n for n in thir.find(thir.root(f), "if") if isinstance(n["c"], dict) and n["c"].get("k") == "letx" and "Running" in thir.pattern_variants(n["c"]["p"])]
     okshape = False
@@ -419,6 +429,46 @@ def previous_run_safe(ctx, B, rule="R04.4"):
     ctx.require(built and built <= {"Pending", "Finished"}, rule, "reset-returns-no-child",
                 "reset() only builds Pending/Finished values (never a state owning a child)", f.loc(f.line), detail=str(sorted(built)),
                 fail="reset() can return a %s state" % sorted(built - {"Pending", "Finished"}))
+
+
+def reset_summary(ctx, rule="R09.3"):
+    """CommandState::reset leaves the state Pending and returns the old run (Finished keeps its fields; Running becomes Finished{Continued})"""
+    f = ctx.anchor_fn(rule, CSTATE + "::reset")
+    ms = [m for m in thir.find(thir.root(f), "match") if m["src"] == "Normal" and m["sty"].endswith("CommandState")]
+    if len(ms) != 1:
+        ctx.violation(rule, "floor:reset-match", "CommandState::reset is no longer one match over self", f.loc(f.line))
+        return
+    m = ms[0]
+    seen = set()
+    for arm in m["arms"]:
+        vs = thir.pattern_variants(arm["p"])
+        if len(vs) != 1:
+            ctx.incomplete(rule, "reset-arm:" + "|".join(vs), "arm covers several states", f.loc(arm["l"]))
+            continue
+        v = vs[0]
+        seen.add(v)
+        assigns = [(pathx.desc(n["a"]), pathx.desc(n["b"])) for n in thir.find(arm["b"], "assign")]
+        val = thir.expr_value(arm["b"])
+        built = [n for n in thir.find(arm["b"], "adt") if n["adt"] == CSTATE]
+        if v == "Pending":
+            ok = not assigns and val[0] == "v" and val[2] == "Pending"
+            ctx.require(ok, rule, "reset:Pending", "reset() of Pending returns Pending and changes nothing", f.loc(arm["l"]))
+        else:
+            to_pending = ("self", "Pending") in assigns and len(assigns) == 1
+            copy = [thir.expr_value(b) for b in built if b["v"] == "Finished"]
+            okcopy = False
+            if len(copy) == 1:
+                fs = copy[0][3]
+                if v == "Finished":
+                    okcopy = all(fs.get(k) == ("var", k) for k in ("status", "started", "finished"))
+                else:
+                    okcopy = fs.get("status", ("",))[0] == "v" and fs["status"][2] == "Continued" and fs.get("started") == ("var", "started")
+            returns_copy = val == ("var", "copy")
+            ctx.require(to_pending and okcopy and returns_copy, rule, "reset:" + v,
+                        "reset() of %s stores Pending and returns the finished run" % v, f.loc(arm["l"]), detail=str(assigns),
+                        fail="CommandState::reset on a %s state %s: the job keeps reporting a stale state (and previous_run is wrong) after a failed spawn"
+                             % (v, "does not set the state back to Pending" if not to_pending else "does not return the old run's data"))
+    ctx.require(seen == {"Pending", "Running", "Finished"}, rule, "reset:all-states", "reset() handles all three states separately", f.loc(f.line), detail=str(sorted(seen)))
 
 
 def kill_on_drop(ctx, rule="R04.5"):
